@@ -339,8 +339,9 @@ ApplyOp(st, s) ==
     [] f \in {"addseq", "mulseq"} ->
         LET shs == [i \in 1..Len(os) |-> OpSh(st, os[i])] sh == BShapeAll(shs)
             cs == [i \in 1..Len(os) |-> OpCells(st, os[i])] gs == [i \in 1..Len(os) |-> BGather(shs[i], sh)]
-        IN MkResult(st, s, sh, [p \in 1..Size(sh) |-> LET xs == [i \in 1..Len(os) |-> cs[i][gs[i][p]]]
-                                                   IN IF f = "addseq" THEN DSumSeq(xs) ELSE DProdSeq(xs)], os)
+        IN MkResultL(st, s, sh, [p \in 1..Size(sh) |-> LET xs == [i \in 1..Len(os) |-> cs[i][gs[i][p]]]
+                                                    IN IF f = "addseq" THEN DSumSeq(xs) ELSE DProdSeq(xs)], os,
+                     ElementwiseLayout(st, os, sh))
     [] f = "einsum" ->
         LET shs == [i \in 1..Len(os) |-> OpSh(st, os[i])] cs == [i \in 1..Len(os) |-> OpCells(st, os[i])]
         IN MkResult(st, s, [k \in 1..Len(s.out) |-> EinSize(s.subs, shs, s.out[k])], EinCells(s.subs, shs, s.out, cs), os)
@@ -383,7 +384,8 @@ ApplyOp(st, s) ==
         LET sx == OpSh(st, os[1]) sy == OpSh(st, os[2]) sh == BShape3(s.cond.sh, sx, sy)
             gc == BGather(s.cond.sh, sh) gx == BGather(sx, sh) gy == BGather(sy, sh)
             cx == OpCells(st, os[1]) cy == OpCells(st, os[2])
-        IN MkResult(st, s, sh, [p \in 1..Size(sh) |-> IF s.cond.v[gc[p]] THEN cx[gx[p]] ELSE cy[gy[p]]], os)
+        IN MkResultL(st, s, sh, [p \in 1..Size(sh) |-> IF s.cond.v[gc[p]] THEN cx[gx[p]] ELSE cy[gy[p]]], os,
+                     ElementwiseLayout(st, <<[arr |-> s.cond]>> \o os, sh))
     [] f \in {"concatenate", "stack"} ->
         LET shs0 == [i \in 1..Len(os) |-> OpSh(st, os[i])]
             ax0 == s.axis
